@@ -24,6 +24,7 @@ type checker struct {
 	run     *evid.Run
 	recd    *rec.Recorder
 	handler http.Handler
+	query   string // raw query of the next request served
 	seg     string // the name under test inside the paths being served
 	encoded bool   // serve the percent-encoded spelling of seg
 }
@@ -191,7 +192,7 @@ func spell(seg string) string {
 
 func (c *checker) serve(method, path string) (status int, calls []*rec.Call, ok bool) {
 	c.recd.Reset()
-	u := &url.URL{Path: path}
+	u := &url.URL{Path: path, RawQuery: c.query}
 	if c.encoded {
 		// the same path, spelt with percent-encoding inside the name under test
 		if i := strings.Index(path, c.seg); i >= 0 && c.seg != "" {
@@ -236,6 +237,24 @@ func (c *checker) router(s string, vr, vt, vd bool) {
 			}
 		}
 		run.Distinct(fmt.Sprintf("route/repo/valid=%v/reached=%v", vr, reached))
+	}
+	// as the source repository of a cross-repository mount (a query parameter, not a path segment)
+	if s != "" {
+		c.query = "mount=" + url.QueryEscape("sha256:"+strings.Repeat("ab", 32)) + "&from=" + url.QueryEscape(s)
+		_, calls, ok := c.serve("POST", "/v2/r/blobs/uploads/")
+		c.query = ""
+		reached := has(calls, func(cl *rec.Call) bool { return cl.Method == "MountBlob" && cl.FromRepo == s })
+		if ok && reached != vr {
+			run.Violation(fmt.Sprintf("router-mount-from/%s/reached=%v", strClass(s), reached), fmt.Sprintf("POST /v2/r/blobs/uploads/?mount=…&from=%s: backend MountBlob(from=%q) reached=%v but IsValidRepository=%v", s, s, reached, vr), map[string]any{"from": s})
+		}
+		for _, cl := range calls {
+			for _, r := range cl.Repos() {
+				if !ociref.IsValidRepository(r) || !gram.ValidRepo(r) {
+					run.Violation("router-invalid-backend-arg/repo", fmt.Sprintf("backend %s called with invalid repository %q", cl.Method, r), map[string]any{"from": s})
+				}
+			}
+		}
+		run.Distinct(fmt.Sprintf("route/mount-from/valid=%v/reached=%v", vr, reached))
 	}
 	if strings.Contains(s, "/") {
 		// tags and digests never contain '/': only require that the backend never sees s verbatim
